@@ -29,7 +29,7 @@ m = {
     "version": 1,
     "setup_cmd": "./setup.sh",
     "hooks": {"guard": "verif", "enable": "go build -tags verif (add-only files p9/verif_export.go, ...)",
-              "baseline_off_cmd": "cd /repo && go test -vet=off -count=1 ./...",
+              "baseline_off_cmd": "cd /repo && go test -vet=off -count=1 ./p9/... ./fsimpl/composefs/... ./fsimpl/localfs/... ./fsimpl/qids/... ./fsimpl/staticfs/... ./vecnet/...",
               "source_commits": hook_commits, "add_only": True},
     "engines": [{"name": "lean4-proof+correspondence", "path": "/verif/check",
                  "serves_properties": [c["property_id"] for c in checks],
